@@ -1263,6 +1263,13 @@ func corpus() []Seq {
 		{Limit: 0, Ops: []Op{{K: "readfrom", Src: []Src{{1, 16385, 0}, {2, 3, 1}}}, rd(16390)}},
 		{Limit: 10, Ops: []Op{{K: "readfrom", Src: []Src{{1, 4, 0}, {2, 4, 0}, {3, 4, 0}}}, rd(20)}},
 		{Limit: 65, Ops: []Op{w(60), rd(50), {K: "readfrom", Src: []Src{{1, 100, 1}}}, rd(200)}},
+		// Bytes on a string whose body is cut short by no more than what was consumed in front of it
+		// (l <= Size < rpos+l): gen(1,n) = 1,2,3,.. is class 1, length 2; gen(3,n) is class 3, length 0x0405
+		{Limit: 0, Ops: []Op{w(3), {K: "bytes"}, w(5), rd(10)}},
+		{Limit: 0, Init: &Src{1, 3, 0}, Ops: []Op{{K: "bytes"}, w(5), rd(10)}},
+		{Limit: 0, Ops: []Op{{K: "wfixed", W: 8, V: 7}, w(3), {K: "rfixed", W: 8}, {K: "bytes"}, {K: "wfixed", W: 2, V: 5}, rd(10)}},
+		{Limit: 0, Ops: []Op{{K: "write", Seed: 3, N: 1030}, {K: "bytes"}, w(5), rd(10)}},
+		{Limit: 0, Ops: []Op{w(60), rd(58), w(3), rd(2), {K: "bytes"}, w(4), rd(10)}},
 		// positional writes: every width at 0, Size-w-1, Size-w (the last w bytes), Size-w+1, fresh and after a read, with and without Limit
 		{Limit: 0, Ops: wposGrid(20, 0)},
 		{Limit: 0, Ops: wposGrid(20, 7)},
